@@ -34,7 +34,8 @@ def programs(ctx):
         progs.append([op])
     for a, b in itertools.product(WRITE_OPS, repeat=2):
         progs.append([a, b])
-    extra = [[('create',), ('flush',), ('raw',)], [('update',), ('read',), ('delete',)],
+    extra = [[('link',)], [('link',), ('link',)], [('link',), ('flush',), ('create',)], [('link',), ('read',), ('raw',)],
+             [('create',), ('flush',), ('raw',)], [('update',), ('read',), ('delete',)],
              [('create',), ('commit',), ('raw',)], [('raw',), ('commit',), ('create',), ('link',)],
              [('delete',), ('flush',), ('create',), ('commit',), ('update',)]]
     if not quick:
